@@ -264,25 +264,24 @@ theorem run_good (O : Oracle) (P : Prog) (evs : List Ev) : ∀ c : Cfg, Good O c
         rw [this, hx] at hf; cases hf
     exact ih _ (step_good O P c e g hmid) hf
 
-theorem init_closed (name : String) : (PMF.init name).closed = false := by
-  unfold PMF.init; split <;> rfl
+theorem init_closed (nfut : Nat) : (PMF.init nfut).closed = false := rfl
 
-theorem create_good (O : Oracle) (name pid : String) (hf : (create O name pid).ch.failed = none) :
-    Good O (create O name pid) := by
+theorem create_good (O : Oracle) (nfut : Nat) (pid : String) (hf : (create O nfut pid).ch.failed = none) :
+    Good O (create O nfut pid) := by
   unfold create at hf ⊢
   dsimp only at hf ⊢
-  have hfr := announce_frame O (PMF.init name).entered.reverse { pid := pid } []
+  have hfr := announce_frame O (PMF.init nfut).entered.reverse { pid := pid } []
   split at hf
   · rename_i hs; simp [hf] at hs
   · rename_i hs
-    have hn : (announce O { pid := pid } [] (PMF.init name).entered.reverse).failed = none := by
-      cases hx : (announce O { pid := pid } [] (PMF.init name).entered.reverse).failed with
+    have hn : (announce O { pid := pid } [] (PMF.init nfut).entered.reverse).failed = none := by
+      cases hx : (announce O { pid := pid } [] (PMF.init nfut).entered.reverse).failed with
       | none => rfl
       | some v => simp [hx] at hs
-    have ha := announce_ann O (PMF.init name).entered.reverse { pid := pid } [] ⟨by simp [owed], rfl⟩ rfl hn
+    have ha := announce_ann O (PMF.init nfut).entered.reverse { pid := pid } [] ⟨by simp [owed], rfl⟩ rfl hn
     simp only [List.reverse_reverse, List.append_nil] at ha
     simp only [hs]
-    refine ⟨⟨?_, ?_⟩, ?_, ?_, ?_, tc_init name⟩
+    refine ⟨⟨?_, ?_⟩, ?_, ?_, ?_, tc_init nfut⟩
     · simpa [subscribe] using ha.blog
     · simpa [subscribe] using ha.count
     · intro _; simp [subscribe]
@@ -429,17 +428,17 @@ theorem run_sim (O1 O2 : Oracle) (q1 : Quiet O1) (q2 : Quiet O2) (P : Prog) (evs
     simp only [run, List.foldl, trace] at h' ⊢
     exact ⟨h'.1, by rw [h.2, h'.2]⟩
 
-theorem create_sim (O1 O2 : Oracle) (q1 : Quiet O1) (q2 : Quiet O2) (name pid : String) :
-    Sim (create O1 name pid) (create O2 name pid) := by
-  have a1 := announce_quiet O1 q1 (PMF.init name).entered.reverse { pid := pid } [] rfl
-  have a2 := announce_quiet O2 q2 (PMF.init name).entered.reverse { pid := pid } [] rfl
+theorem create_sim (O1 O2 : Oracle) (q1 : Quiet O1) (q2 : Quiet O2) (nfut : Nat) (pid : String) :
+    Sim (create O1 nfut pid) (create O2 nfut pid) := by
+  have a1 := announce_quiet O1 q1 (PMF.init nfut).entered.reverse { pid := pid } [] rfl
+  have a2 := announce_quiet O2 q2 (PMF.init nfut).entered.reverse { pid := pid } [] rfl
   unfold create
   simp only [a1.1, a2.1, Option.isSome_none, Bool.false_eq_true, if_false]
   refine ⟨rfl, ?_, rfl, rfl, rfl, rfl, ?_⟩
-  · have e1 : erase (subscribe (announce O1 { pid := pid } [] (PMF.init name).entered.reverse)) =
-        subscribe (erase (announce O1 { pid := pid } [] (PMF.init name).entered.reverse)) := rfl
-    have e2 : erase (subscribe (announce O2 { pid := pid } [] (PMF.init name).entered.reverse)) =
-        subscribe (erase (announce O2 { pid := pid } [] (PMF.init name).entered.reverse)) := rfl
+  · have e1 : erase (subscribe (announce O1 { pid := pid } [] (PMF.init nfut).entered.reverse)) =
+        subscribe (erase (announce O1 { pid := pid } [] (PMF.init nfut).entered.reverse)) := rfl
+    have e2 : erase (subscribe (announce O2 { pid := pid } [] (PMF.init nfut).entered.reverse)) =
+        subscribe (erase (announce O2 { pid := pid } [] (PMF.init nfut).entered.reverse)) := rfl
     rw [e1, e2, a1.2, a2.2]
   · simpa [subscribe] using a1.1
 
@@ -489,8 +488,8 @@ theorem run_pid (O : Oracle) (P : Prog) (evs : List Ev) : ∀ c : Cfg, (run O P 
     simp only [run, List.foldl] at ih ⊢
     rw [ih, step_pid]
 
-theorem create_pid (O : Oracle) (name pid : String) : (create O name pid).ch.pid = pid := by
-  have hfr := announce_frame O (PMF.init name).entered.reverse { pid := pid } []
+theorem create_pid (O : Oracle) (nfut : Nat) (pid : String) : (create O nfut pid).ch.pid = pid := by
+  have hfr := announce_frame O (PMF.init nfut).entered.reverse { pid := pid } []
   unfold create
   dsimp only
   split
